@@ -129,7 +129,7 @@ func nonTrivial(prop string, f map[string]bool) bool {
 	case "C05":
 		return f["two-callers-one-method-with-reader"]
 	case "C06":
-		return f["reenter-same-method"] || f["reset-inside-callback"]
+		return f["reenter-same-method"] || f["reset-inside-callback"] || f["parked-callback-others-finished"]
 	case "C07":
 		return f["nilfunc-results-after-call"]
 	case "C08":
@@ -170,7 +170,7 @@ func Main(t *testing.T) {
 		def := &Registry[mi]
 		nm := 0
 		for i := 0; i < def.IfaceType.NumMethod(); i++ {
-			if def.IfaceType.Method(i).PkgPath == "" {
+			if def.IfaceType.Method(i).PkgPath == "" || def.Unexported != nil {
 				nm++
 			}
 		}
@@ -211,6 +211,36 @@ func Main(t *testing.T) {
 				_ = os.WriteFile(filepath.Join(dir, "current.json"), b, 0o644)
 			}
 			vs, flags, err = RunProgram(def, prog)
+		} else if prop == "C06" && d.chance(35) {
+			// schedules: several goroutines on one mock, optionally with one call parked inside its function
+			prog := &Program{Mock: mi, WithResets: def.Resets, BlockFirst: d.chance(50)}
+			ng := 2 + d.intn(4)
+			for g := 0; g < ng; g++ {
+				n := 1 + d.intn(6)
+				var ops []Op
+				for i := 0; i < n; i++ {
+					op := Op{M: d.intn(nm), Seed: d.seed(), Kind: "call", Behav: "ret"}
+					k := d.intn(100)
+					switch {
+					case k < 20:
+						op.Kind = "read"
+					case k < 35 && def.Resets:
+						op.Kind = "reset"
+					case k < 50 && def.Resets:
+						op.Kind = "resetall"
+					}
+					if d.chance(50) {
+						op.M = 0
+					}
+					ops = append(ops, op)
+				}
+				if g == 0 && prog.BlockFirst {
+					ops = append([]Op{{M: 0, Seed: d.seed(), Kind: "call", Behav: "ret"}}, ops...)
+				}
+				prog.Goroutines = append(prog.Goroutines, ops)
+			}
+			fc.Program = prog
+			vs, flags, err = RunSchedProgram(def, prog)
 		} else {
 			n := 2 + d.intn(maxLen)
 			for i := 0; i < n; i++ {
@@ -232,7 +262,7 @@ func Main(t *testing.T) {
 				st.Labels["history:"+f]++
 			}
 			if nonTrivial(prop, flags) {
-				if prop == "C05" {
+				if fc.Program != nil {
 					nt[caseHash(def.ID, fc.Program)] = true
 				} else {
 					nt[caseHash(def.ID, fc.Ops)] = true
@@ -297,7 +327,11 @@ func Replay(t *testing.T) {
 		if fc.Program != nil {
 			// schedule-dependent: repeat (the race detector halts the process on the first report)
 			for i := 0; i < 25 && len(vs) == 0 && err == nil; i++ {
-				vs, _, err = RunProgram(def, fc.Program)
+				if fc.Prop == "C06" {
+					vs, _, err = RunSchedProgram(def, fc.Program)
+				} else {
+					vs, _, err = RunProgram(def, fc.Program)
+				}
 			}
 		} else {
 			vs, _, err = RunHistory(def, fc.Ops)
